@@ -44,7 +44,9 @@ TotOK(ln) ==
   /\ ln.ret = 3 /\ Len(ln.out) = 3 /\ ln.out[1] = 249
   /\ (HalfRepresentable(ln.b) \/ SingleIsNaN(ln.b)) => ln.out = <<249>> \o EncodeHalfReq(ln.b)
 
-LineOK(ln) == CASE ln.e = "half" -> HalfOK(ln) [] ln.e = "single" -> SingleOK(ln) [] ln.e = "double" -> DoubleOK(ln) [] OTHER -> TotOK(ln)
+(* the encoder of the item's width: 0 into a buffer one byte short, the full count into one that fits exactly *)
+RoomOK(ln) == ln.enc_short = 0 /\ ln.enc_fit = ln.w + 1
+LineOK(ln) == CASE ln.e = "half" -> HalfOK(ln) /\ RoomOK(ln) [] ln.e = "single" -> SingleOK(ln) /\ RoomOK(ln) [] ln.e = "double" -> DoubleOK(ln) /\ RoomOK(ln) [] OTHER -> TotOK(ln)
 Init == l = 1
 Next == l <= Len(TraceLog) /\ LineOK(TraceLog[l]) /\ l' = l + 1
 Spec == Init /\ [][Next]_l
